@@ -96,7 +96,7 @@ def _replay(args):
                     nontriv.append((dg, rg, s['a'], s['m']))
             # path independence / idempotence on the real code for a sample: to R_1, then to R_2
             g2 = rng.choice(sorted(GOAL))
-            if g2 != rg and not (g2 == 'ninf' and DIAG[dg][0] == 'f' and DIAG[dg][5] != 0.0):
+            if g2 != rg:
                 try:
                     a1 = plain(dg, amp, mean, GOAL[g2])
                     ok = np.isfinite(a1) & (a1 > 0)
